@@ -7,6 +7,42 @@ from . import _common, c01, c10
 LEVEL = "model_checking"
 
 
+def nan_cov_job(job):
+    """The optimiser entry point on a covariance with UNDEFINED entries (a one-point cluster under the unbiased estimator,
+    a sensor without readings): the call may fail or return, the caller's matrix must be what it was - and a read-only
+    matrix must not be refused for being read-only."""
+    common.use_repo()
+    import numpy as np
+    from fast_ticc import admm
+    from .. import proj
+    W, N, how, layout, readonly, seed = job
+    rng = np.random.default_rng(seed)
+    nw = N * W
+    S = np.atleast_2d(np.cov(rng.normal(size=(nw + 3, nw)).T))
+    if how == "all":
+        S[:] = np.nan
+    else:
+        k = int(rng.integers(nw))
+        S[k, :] = np.nan
+        S[:, k] = np.nan
+    if layout == "F":
+        S = np.asfortranarray(S)
+    if readonly:
+        S.setflags(write=False)
+    before = S.tobytes()
+    outcome = "returned"
+    try:
+        with np.errstate(all="ignore"):
+            admm.admm_optimize_theta(S, 0.11, W, N, max_iterations=20)
+    except Exception as ex:                                  # pylint: disable=broad-except
+        outcome = type(ex).__name__ + ": " + str(ex)[:80]
+    after = "refused-because-read-only" if (readonly and "read-only" in outcome) else proj.dig(np.frombuffer(S.tobytes(), dtype=np.uint8))
+    return {"pid": "C19", "clause": "covariance_with_undefined_entries_unchanged_whether_the_call_returns_or_raises",
+            "events": [{"key": "k", "dig": proj.dig(np.frombuffer(before, dtype=np.uint8)), "completed": True, "form": "before"},
+                       {"key": "k", "dig": after, "completed": True, "form": "after: " + outcome}],
+            "job": list(job)}
+
+
 def run(tier):
     rep = common.Report("C19", tier, LEVEL)
     _common.model_checks(rep, list(_common.TICC_MODELS[tier]))
@@ -53,6 +89,17 @@ def run(tier):
     #      that are symmetric only up to round-off (a tempting target for an in-place symmetrisation)
     from .. import drv_admm
     drv_admm.solver_sweep(rep, tier, {"C19"}, extra_kinds=("roundoff_asymmetric",))
+    # (3c) ... and covariances with undefined (NaN) entries: the call usually fails - the caller's matrix must survive it
+    njobs = [(W, N, how, layout, ro, rng.randrange(1 << 30)) for (W, N) in [(1, 1), (2, 2), (3, 2)] for how in ("all", "rowcol")
+             for layout in ("C", "F") for ro in (False, True)][: (24 if tier == "quick" else 24)]
+    nrecs = common.pmap_chunked(nan_cov_job, njobs, chunk=4)
+    accn, failn, resn = tracecheck.validate("TraceMemo", nrecs, {"C19"})
+    for r in resn:
+        rep.add_tlc(r)
+    for gi, fl in sorted(failn.items()):
+        rep.violation(fl[0][1], {"job": nrecs[gi]["job"], "events": nrecs[gi]["events"], "clauses": fl})
+    n_eval += 2 * len(nrecs)
+    n_acc += len(accn)
     # (4) failing calls: the fault corpus of C20
     fc = corpus.cached(f"faults_{tier}_{common.seed()}", lambda: faultruns.build_fault_corpus(tier))
     ft = [e["F"] for e in fc["experiments"] if "F" in e and e["F"]["events"][-1]["ev"] == "raise"]
